@@ -29,6 +29,14 @@ def partitions(tier, seed):
         top = min(m + 2, 9) if quick else min(m + 4, 14)
         for n in range(0, top + 1):
             parts.append(sp.S(PROP, "C06", k, n, budget=25 if quick else 120))
+    if quick:
+        have = set(sk)
+        for k in sp.struct_keys():
+            if k not in have:
+                m = sp.min_size(k)
+                for n in (m, m + 1):
+                    if n <= 12:
+                        parts.append(sp.S(PROP, "C06", k, n, budget=20))
     # prim types at their width and +-1
     for k in sp.prim_keys():
         w = sp.L()["types"][k]["width"]
